@@ -145,6 +145,15 @@ func runC06(run *Run, replay string) {
 			}
 		}
 	}
+	// ---- hooked attributes of the value-focus family (top level and inside a block), deterministic
+	for _, sp := range valueFocusSpecs() {
+		if !strings.HasPrefix(sp.kind, "value-focus/hk") {
+			continue
+		}
+		sc := sp.scenario()
+		sc.W.Collect()
+		hookedAttributesOracle(run, sc, lcTable(sc.Src), map[string]interface{}{"seed": run.Res.Seed, "kind": sc.Kind, "src": string(sc.Src)})
+	}
 	// ---- (2) candidates of CompletionAtPos
 	bases, hist, posN := 36, 3, 24
 	if run.Thorough {
@@ -363,6 +372,11 @@ func hookedAttributesOracle(run *Run, sc *Scenario, tbl map[int]hcl.Pos, loc map
 			if ks := bs.Blocks[k.Type]; ks != nil {
 				// the body in force: the dependent body selected by the block's labels / key attributes may
 				// redeclare an attribute without hooks
+				if len(ks.DependentBody) == 0 && ks.Body != nil {
+					// nothing can redeclare: the body as the caller declared it is binding (a derived copy that lost hooks must not hide them)
+					walk(k.Body, ks.Body)
+					continue
+				}
 				merged, _ := decoder.VerifMergeBlockBodySchemas(k.AsHCLBlock(), ks)
 				walk(k.Body, merged)
 			}
